@@ -15,6 +15,7 @@
 #include <queue>
 #include <deque>
 #include <list>
+#include <mutex>
 
 #ifndef C06_GROUP
 #   define C06_GROUP 0
@@ -162,6 +163,30 @@ template <class GC> struct oq_itraits : public ci::optimistic_queue::traits {
     typedef keep_disposer< oq_item<GC> > disposer;
 };
 #elif C06_GROUP == 4
+// RWQueue frees the old dummy node inside dequeue; the model's allocator never reuses a node, so for the
+// step correspondence the nodes are released only after the case (variant 47 keeps the default allocator)
+struct deferred_free {
+    static std::mutex& mtx() { static std::mutex m; return m; }
+    static std::vector<void*>& list() { static std::vector<void*> l; return l; }
+    static void release() { std::lock_guard<std::mutex> g( mtx()); for ( void* p : list()) ::operator delete( p ); list().clear(); }
+};
+template <class T>
+struct case_allocator {
+    typedef T value_type;
+    typedef T* pointer; typedef T const* const_pointer; typedef T& reference; typedef T const& const_reference;
+    typedef size_t size_type; typedef ptrdiff_t difference_type;
+    template <class U> struct rebind { typedef case_allocator<U> other; };
+    case_allocator() {}
+    template <class U> case_allocator( case_allocator<U> const& ) {}
+    T* allocate( size_t n ) { return static_cast<T*>( ::operator new( n * sizeof( T ))); }
+    void deallocate( T* p, size_t ) { std::lock_guard<std::mutex> g( deferred_free::mtx()); deferred_free::list().push_back( p ); }
+    template <class U, class... Args> void construct( U* p, Args&&... args ) { new ( p ) U( std::forward<Args>( args )... ); }
+    template <class U> void destroy( U* p ) { p->~U(); }
+    bool operator==( case_allocator const& ) const { return true; }
+    bool operator!=( case_allocator const& ) const { return false; }
+};
+struct rw_keep    : public cc::rwqueue::traits { typedef case_allocator<int> allocator; };
+struct rw_keep_ic : public rw_keep { typedef cds::atomicity::item_counter item_counter; };
 struct rw_ic      : public cc::rwqueue::traits { typedef cds::atomicity::item_counter item_counter; };
 struct fc_elim    : public cc::fcqueue::traits { static constexpr const bool enable_elimination = true; };
 struct fc_item : public boost::intrusive::list_base_hook<> { int v; };
@@ -222,8 +247,11 @@ int main( int argc, char** argv )
             case 34: run_one< intrusive_adapter< ci::OptimisticQueue< HP, oq_item<HP>, oq_itraits<HP> >, oq_item<HP> > >( c ); break;
             case 35: run_one< intrusive_adapter< ci::OptimisticQueue< DHP, oq_item<DHP>, oq_itraits<DHP> >, oq_item<DHP> > >( c ); break;
 #elif C06_GROUP == 4
-            case 40: run_one< value_adapter< cc::RWQueue< int > > >( c ); break;
-            case 41: run_one< value_adapter< cc::RWQueue< int, rw_ic > > >( c ); break;
+            // two-lock queue: modelled step by step (LV.Model.RWQueue)
+            case 40: run_one< value_adapter< cc::RWQueue< int, rw_keep > > >( c ); deferred_free::release(); break;
+            case 41: run_one< value_adapter< cc::RWQueue< int, rw_keep_ic > > >( c ); deferred_free::release(); break;
+            case 47: run_one< value_adapter< cc::RWQueue< int > > >( c ); break;
+            case 48: run_one< value_adapter< cc::RWQueue< int, rw_ic > > >( c ); break;
             // flat combining, default wait strategy (back-off: spins on atomics), spin lock
             case 42: run_one< value_adapter< cc::FCQueue< int > > >( c ); break;
             case 43: run_one< value_adapter< cc::FCQueue< int, std::queue<int>, fc_elim > > >( c ); break;
